@@ -3,9 +3,10 @@
 spec:     specs/c20_diagnosis_failsafe  WatcherP (property: monitor over obs/react events), WatcherI (implementation-shaped:
           one action per iteration of StateChangeWatcher.run), WatcherTrace, WatcherITrace, GenC20
 binding:  harness/cmd/c20 drives the real failsafe.NewStateChangeWatcher with a lock-step clock and a predicate that blocks on a
-          channel (one observation per iteration); callbacks append react events with the clock value
+          channel (one observation per iteration); callbacks append react events with the clock value; `wire` mode drives
+          NewDiagnosisFailsafeStateChangeWatcher (real statistics predicate over a loopback fake, real reverts on a real accessor)
 """
-import json, os
+import json, os, socket
 from vlib import Broken, read_ndjson, validate_history_trace, parallel, tlc_vh_lines, split_histories
 
 SPEC = "c20_diagnosis_failsafe"
@@ -65,6 +66,21 @@ def witness_of(rej):
     return w
 
 
+
+def unreached(ctx, sd, out, modules, allow=()):
+    """non-vacuity from `tlc -coverage 1`: expressions of the given modules that were never evaluated in the Next relation
+    (count 0), minus lines whose source text contains one of `allow`."""
+    import re
+    bad = []
+    for m in re.finditer(r"line (\d+), col (\d+) to line \d+, col \d+ of module (\w+): 0\s*$", out, re.M):
+        ln, mod = int(m.group(1)), m.group(3)
+        if mod not in modules:
+            continue
+        src = open(os.path.join(sd, mod + ".tla")).read().splitlines()[ln - 1]
+        if not any(a in src for a in allow):
+            bad.append("%s:%d %s" % (mod, ln, src.strip()))
+    return bad
+
 def execute(ctx, binary, scripts, tag):
     d = ctx.sub("run-" + tag)
     sp = os.path.join(d, "scripts.json")
@@ -73,7 +89,24 @@ def execute(ctx, binary, scripts, tag):
     return [read_ndjson(os.path.join(d, "trace-%03d.ndjson" % i)) for i in range(len(scripts))]
 
 
-def judge(ctx, binary, traces, tag, seen):
+def execute_wired(ctx, binary, scripts, tag):
+    """same scripts against NewDiagnosisFailsafeStateChangeWatcher: real predicate (HAProxy statistics from a loopback fake on
+    localhost:9000), real reactions (reverts on a real TxnPoliciesAccessor).  None = port 9000 is taken on this machine."""
+    d = ctx.sub("run-" + tag)
+    sp = os.path.join(d, "scripts.json")
+    json.dump(scripts, open(sp, "w"))
+    s = socket.socket(); s.bind(("127.0.0.1", 0)); port = str(s.getsockname()[1]); s.close()
+    p = ctx.run_harness(binary, ["wire", sp, d], env={"HAPROXY_MANAGE_ENDPOINTS_PORT": port, "LUNAR_HEALTHCHECK_PORT": port},
+                        check=False, timeout=600)
+    if p.returncode == 4:
+        return None
+    if p.returncode != 0:
+        raise Broken("harness (wire) failed rc=%d\n%s" % (p.returncode, p.stderr[-3000:]))
+    return [read_ndjson(os.path.join(d, "trace-%03d.ndjson" % i)) for i in range(len(scripts))]
+
+
+def judge(ctx, binary, traces, tag, seen, exe=None):
+    exe = exe or execute
     def one(it):
         i, ev = it
         return validate_history_trace(ctx, SPEC, "WatcherTrace", ev, tag="%s%d" % (tag, i))
@@ -100,7 +133,7 @@ def judge(ctx, binary, traces, tag, seen):
         for rej in rejected:
             w = witness_of(rej)
             script = [{"histories": [script_of(rej["hist"])]}]
-            t2 = execute(ctx, binary, script, "%s-repro" % tag)[0]
+            t2 = exe(ctx, binary, script, "%s-repro" % tag)[0]
             _, r2, _ = validate_history_trace(ctx, SPEC, "WatcherTrace", t2, tag="%s-repro" % tag)
             if not r2:
                 raise Broken("rejection not reproduced (%s): %s" % (tag, json.dumps(w)))
@@ -116,7 +149,7 @@ def run(ctx):
     T = ctx.thorough
     binary = ctx.build_harness("c20")
     sd = ctx.spec_dir(SPEC)
-    ctx.cov["rule"] = ("cases = every boolean observation sequence of length 8 (thorough: 11) for 18 settings (N, stable period, "
+    ctx.cov["rule"] = ("cases = every boolean observation sequence of length 8 (thorough: 12) for 18 settings (N, stable period, "
                        "cool-down), generated by TLC from WatcherI + TLC random walks with late wake-ups / slow predicate + seeded random "
                        "scripts (flapping to calm signals, random settings incl. check interval); non-trivial = at least one reaction "
                        "fired and at least one change of the observed value did not lead to a reaction; distinct by (settings, events)")
@@ -140,11 +173,18 @@ def run(ctx):
         if r.violated is None:
             raise Broken("%s is not refuted / not reachable (vacuous check): %r" % (job[1], r))
 
+    if T:
+        r = ctx.tlc(sd, "MC_C20", "MC_small.cfg", workers=4, timeout=900, extra=["-coverage", "1"], label="coverage (non-vacuity)", count=False)
+        bad = unreached(ctx, sd, r.out, ("WatcherI", "WatcherP"))
+        if not r.ok or bad:
+            raise Broken("vacuous exploration: unreached parts of the model: %s %r" % (bad[:5], r))
+        ctx.notes.append("coverage: every expression of WatcherI/WatcherP reached by the exhaustive run")
+
     seen = set()
     # (2) spec -> code: TLC enumerates the scripts of every behaviour of WatcherI; replayed, judged by P, compared with I
-    g = ctx.tlc(sd, "GenC20", "GenC20.cfg" if not T else "GenC20_11.cfg", workers=1, timeout=900, label="case enumeration", heap="4g")
+    g = ctx.tlc(sd, "GenC20", "GenC20.cfg" if not T else "GenC20_12.cfg", workers=1, timeout=900, label="case enumeration", heap="6g")
     cases = tlc_vh_lines(g.out)
-    want = 18 * (2 ** (8 if not T else 11))
+    want = 18 * (2 ** (8 if not T else 12))
     if len(cases) != want:
         raise Broken("case enumeration produced %d scripts, expected %d: %s" % (len(cases), want, g.out[-1500:]))
     g2 = ctx.tlc(sd, "GenC20", "GenC20_jit.cfg", workers=1, simulate="num=%d" % (40 if not T else 400), depth=20,
@@ -165,6 +205,21 @@ def run(ctx):
     traces = execute(ctx, binary, scripts, "rand")
     ctx.sample({"kind": "recorded-trace", "events": traces[0][1:16]})
     judge(ctx, binary, traces, "rand", seen)
+
+    # (3b) the wiring: NewDiagnosisFailsafeStateChangeWatcher with the real predicate and the real reverts on a real accessor;
+    #      a reaction is what the accessor shows (new current version, diagnosis-free or full)
+    wired_scripts = [{"histories": [rand_history(ctx.rng, T) for _ in range(30 if not T else 150)] +
+                      ctx.rng.sample(cases, 40 if not T else 300)}]
+    wired = execute_wired(ctx, binary, wired_scripts, "wire")
+    if wired is None:
+        ctx.notes.append("wiring part skipped: localhost:9000 (fixed address of the HAProxy statistics page) is not available")
+    else:
+        nre = sum(1 for e in wired[0] if e.get("ev") == "react")
+        if nre == 0:
+            raise Broken("wired run saw no reaction at all")
+        ctx.sample({"kind": "recorded-trace-wired", "events": wired[0][1:12]})
+        judge(ctx, binary, wired, "wire", seen, exe=execute_wired)
+        ctx.notes.append("wiring: %d reverts observed on the real accessor, all allowed by WatcherP" % nre)
 
     # (4) binding self-test (thorough)
     if T:
